@@ -386,6 +386,13 @@ def _build_invpl(inp) -> Case:
             res = list(v)
     if not (np.array_equal(np.asarray(xa), xb) and np.array_equal(np.asarray(ya), yb)):
         pre.append(Issue("PROPFAIL", "mutation", "input arrays mutated", sig + "/mutation"))
+    if raised is None and len(x) >= 1:
+        # no targets (a target list filtered down to nothing): one entry per target means NO entry
+        for empty in (np.array([], dtype=float), []):
+            r0 = common.call(utils.invert_pl_function, xa, ya, empty)
+            if r0[0] == "ok" and (not hasattr(r0[1], "__len__") or len(r0[1]) != 0):
+                pre.append(Issue("PROPFAIL", "length", f"an EMPTY array of targets returned {len(r0[1]) if hasattr(r0[1], '__len__') else r0[1]!r} "
+                                 f"entries ({r0[1]!r})", sig + "/length/empty-targets"))
     obs = _flatten_result(res, ts, inp["scalar"], pre, sig) if raised is None else [[] for _ in ts]
     odd_shape = any(np.asarray(e).ndim != 1 for e in res)
     scale = max([1.0] + [abs(v) for v in x + y if math.isfinite(v)])
@@ -551,6 +558,22 @@ def _build_thrmetric(inp) -> Case:
         else:
             opts = list(inp["parr"])
         oys = [float(v) for v in np.asarray(getattr(s, metric)(np.array(opts, dtype=float)), dtype=float).reshape(-1)]
+    if raised is None and inp["pk"] == "arr" and isinstance(parg, np.ndarray) and len(parg) >= 2 and not inp.get("grouped"):
+        # the caller's grid object is refilled IN PLACE (a sweep buffer) and the same object is passed again: the metric is
+        # evaluated at the points the grid holds NOW - identical to passing a fresh copy of it
+        step_ = (max(pos + neg) - min(pos + neg) + 1.0) / 7.0 if pos and neg else 0.25
+        parg += step_
+        fresh = np.array(parg, copy=True)
+        r_same = common.call(s.threshold_at_metric, np.array(ts), marg, parg)
+        r_new = common.call(s.threshold_at_metric, np.array(ts), marg, fresh)
+        parg -= step_
+        okp = r_same[0] == r_new[0] and (r_same[0] == "exc" or (len(r_same[1]) == len(r_new[1]) and all(
+            np.array_equal(np.asarray(u), np.asarray(w), equal_nan=True) for u, w in zip(r_same[1], r_new[1]))))
+        if not okp:
+            pre.append(Issue("PROPFAIL", "points", f"second call with the SAME grid object after it was shifted in place by {step_}: "
+                             f"{[np.asarray(u).tolist() for u in r_same[1]][:3] if r_same[0] == 'ok' else r_same[:2]} but a fresh copy of the "
+                             f"shifted grid gives {[np.asarray(u).tolist() for u in r_new[1]][:3] if r_new[0] == 'ok' else r_new[:2]}",
+                             sig + "/points/grid-reused-in-place"))
     if inp.get("subclass") and raised is None and pos and neg:
         # "metric by name" means the OBJECT's metric of that name: on a user subclass that redefines the metric (rates under
         # a deployment prior) or adds one, the name gives exactly what passing the bound behaviour as a callable gives
